@@ -195,3 +195,43 @@ def enumerate_histories(glue, X, T, depth, kinds=('rt', 'rs')):
             for k in kinds:
                 yield from rec(prefix + [(k, gid)])
     yield from rec([])
+
+
+def deep_histories(rng, n, depth):
+    """Float-coordinate histories that refine towards one point of the cylinder (corner, seam, final time) to a large
+    depth: yields (glue, X, T, ops-callable) where ops-callable(pm) performs the refinements on a PyMesh.  Exercises
+    tolerance-based logic that only bites at small element sizes."""
+    for i in range(n):
+        glue = rng.choice([1, 1, 0])
+        X = rng.choice([[0.0, 1.0], [0.0, 0.5, 1.0], [0.0, 1.0, 2.0, 3.0, 4.0]])
+        T = rng.choice([[0.0, 1.0], [0.0, 1.0, 2.0]])
+        tt = rng.choice([T[0], T[-1], T[-1], (T[0] + T[-1]) / 2])
+        xx = rng.choice([X[0], X[-1], X[len(X) // 2]])
+        mode = rng.choice(['t', 't', 's', 'ts'])
+
+        def run(pm, tt=tt, xx=xx, mode=mode, X=X, glue=glue):
+            ops = []
+            for d in range(depth):
+                # leaves touching the target point (closed rectangles; on a closed curve x=0 and x=L are the same point)
+                cand = []
+                for e in pm.mesh.leaf_elements:
+                    t0, t1 = e.time_interval
+                    x0, x1 = e.space_interval
+                    hit_x = x0 <= xx <= x1 or (glue and ((xx == X[0] and x1 == X[-1]) or (xx == X[-1] and x0 == X[0])))
+                    if t0 <= tt <= t1 and hit_x:
+                        cand.append(e)
+                if not cand:
+                    break
+                for e in cand:
+                    if e.children:
+                        continue
+                    kinds = ['rt'] if mode == 't' else ['rs'] if mode == 's' else ['rt', 'rs'][d % 2:d % 2 + 1]
+                    for k in kinds:
+                        op = (k, e.glob_idx)
+                        ops.append(op)
+                        if pm.apply(op).startswith('err'):
+                            return ops, 'err'
+                if len(pm.mesh.leaf_elements) > 400:
+                    break
+            return ops, 'ok'
+        yield glue, X, T, run
